@@ -25,105 +25,346 @@ def class_attr_names(ci):
     return names
 
 
+ENCRYPT_OPS = {  # class -> (roles of the positional parameters, ESK packet class, index of key / cipher in encrypt_sk's arguments, plaintext)
+    'PGPMessage': (('self', 'passphrase', 'sessionkey'), 'SKESessionKey', 1, None, 'self'),
+    'PGPKey': (('self', 'message', 'sessionkey'), 'PKESessionKey', 2, 1, 'message'),
+}
+
+
+def encrypt_operation_paths(prog, cls, given):
+    """The returning paths of <cls>.encrypt on a not yet encrypted message, with the session-key packet call, the container call
+    and what reaches them.  Parameters are bound by position, the packets are recognised by their CLASS (not by the local that holds
+    them): -> (fi, [dict(state, esk, data, esk_key, esk_alg, data_key, data_alg, plaintext, esk_obj)])."""
+    from . import taint
+    roles, esk_cls, ki, ai, subject = ENCRYPT_OPS[cls]
+    fi = prog.method('pgpy.pgp', cls, 'encrypt')
+    args = {'sessionkey': Sym('sessionkey', nonnull=True) if given else Const(None)}
+    outs = taint.run_roles(prog, fi, roles, kwarg='prefs', args=args,
+                           bind={'self.is_encrypted': Const(False), 'message.is_encrypted': Const(False)})
+    res = []
+    for s in outs:
+        if s.raised:
+            continue
+        esk = [c for c in s.calls if c[0].endswith('.encrypt_sk') and taint.obj_of_class(s, c[0][:-len('.encrypt_sk')], esk_cls)]
+        data = [c for c in s.calls if c[0].endswith('.encrypt') and taint.obj_of_class(s, c[0][:-len('.encrypt')], 'IntegrityProtectedSKEData', 'SKEData')]
+        d = {'state': s, 'esk': esk, 'data': data, 'subject': subject}
+        if len(esk) == 1 and len(data) == 1:
+            ea, da = esk[0][1], data[0][1]
+            d['esk_obj'] = esk[0][0][:-len('.encrypt_sk')]
+            d['esk_key'] = ea[ki] if len(ea) > ki and not esk[0][2] else None
+            if ai is not None:
+                d['esk_alg'] = [ea[ai]] if len(ea) > ai else []
+            else:
+                d['esk_alg'] = [v for p, v, l, _ in s.stores if p == d['esk_obj'] + '.s2k.encalg']
+            d['data_key'], d['data_alg'], d['plaintext'] = (list(da) + [None, None, None])[:3] if not data[0][2] else (None, None, None)
+        res.append(d)
+    return fi, res
+
+
 def check_operation_wiring(rep, prog, rid):
     """One cipher_algo and one session key reach the ESK packet and the container, in both encrypt operations."""
-    for cls, esk_key_index, esk_alg in (('PGPMessage', 1, None), ('PGPKey', 2, 1)):
-        fi = prog.method('pgpy.pgp', cls, 'encrypt')
-        rep.saw(fn=fi)
+    for cls in ('PGPMessage', 'PGPKey'):
         for given in (False, True):
-            args = {'sessionkey': Sym('sessionkey', nonnull=True) if given else Const(None)}
-            sc = Scenario(args=args, bind={'self.is_encrypted': Const(False), 'message.is_encrypted': Const(False)}, inline=noinline)
-            for s in Interp(prog, sc).run(fi):
-                if s.raised:
-                    continue
-                esk = [c for c in s.calls if c[0].split('.')[-1] == 'encrypt_sk']
-                data = [c for c in s.calls if c[0].endswith('.encrypt') and c[0].split('.')[-2:-1] == ['skedata']]
-                scen = '%s.encrypt, session key %s' % (cls, 'supplied' if given else 'generated')
-                if len(esk) != 1 or len(data) != 1:
-                    rep.violation(rid, '%s.encrypt' % cls, '%d ESK / %d container encryptions' % (len(esk), len(data)),
+            fi, paths = encrypt_operation_paths(prog, cls, given)
+            rep.saw(fn=fi)
+            scen = '%s.encrypt, session key %s' % (cls, 'supplied' if given else 'generated')
+            if not paths:
+                raise AnalysisError('%s.encrypt: no returning path for a message that is not yet encrypted' % cls)
+            for d in paths:
+                if len(d['esk']) != 1 or len(d['data']) != 1:
+                    rep.violation(rid, '%s.encrypt' % cls, '%d ESK / %d container encryptions' % (len(d['esk']), len(d['data'])),
                                   'expected one session-key packet and one container encryption', where=fi.where, scenario=scen)
                     continue
-                k1 = esk[0][1][esk_key_index] if len(esk[0][1]) > esk_key_index else None
-                k2, alg2 = (data[0][1] + [None, None])[:2]
-                ok = k1 == k2 and k1 is not None
-                if esk_alg is not None:
-                    ok = ok and esk[0][1][esk_alg] == alg2
-                else:
-                    enc = [v for p, v, l, _ in s.stores if p.endswith('.s2k.encalg')]
-                    ok = ok and enc == [alg2]
+                k1, k2, alg2 = d['esk_key'], d['data_key'], d['data_alg']
+                ok = k1 == k2 and k1 is not None and d['esk_alg'] == [alg2]
                 rep.check(ok, rid, '%s.encrypt' % cls, '%s: ESK(key=%s) container(key=%s, cipher=%s)' % (scen, k1, k2, alg2),
                           'the session key and cipher recorded in the session-key packet must be the ones the container is encrypted with',
                           where=fi.where, scenario=scen)
                 # the plaintext is the serialised message
-                pt = data[0][1][2] if len(data[0][1]) > 2 else None
-                want = 'self.__bytes__()' if cls == 'PGPMessage' else 'message.__bytes__()'
-                rep.check(pt in (want, want.replace('__bytes__', '__bytearray__')), rid, '%s.encrypt' % cls, '%s: plaintext %s' % (scen, pt), 'the container holds the whole serialised message',
-                          where=fi.where, expected=want, found=pt, scenario=scen)
+                pt = d['plaintext']
+                want = '%s.__bytes__()' % d['subject']
+                rep.check(pt in (want, want.replace('__bytes__', '__bytearray__'), d['subject']), rid, '%s.encrypt' % cls, '%s: plaintext %s' % (scen, pt),
+                          'the container holds the whole serialised message', where=fi.where, expected=want, found=pt, scenario=scen)
+
+
+def _sessionkey_universe(prog):
+    return [prog.cls('pgpy.packet.packets', 'PKESessionKeyV3'), prog.cls('pgpy.packet.packets', 'SKESessionKeyV4')]
+
+
+class _Narrow(object):
+    """Type-state of one variable that ranges over the heterogeneous session-key list: the set of packet classes it can still be.
+    isinstance / hasattr tests narrow it (and / or / not / if / conditional expression / guard clause that leaves the iteration);
+    a read of `var.attr` is reported when some remaining class does not have the attribute."""
+    def __init__(self, var, universe):
+        self.var = var
+        self.universe = frozenset(universe)
+        self.attrs = {c: class_attr_names(c) for c in universe}
+        self.bad = []           # (attr, lineno)
+
+    def _is_var(self, n):
+        return isinstance(n, ast.Name) and n.id == self.var
+
+    def _classes(self, tnode, S):
+        names = []
+        for t in (tnode.elts if isinstance(tnode, ast.Tuple) else [tnode]):
+            d = dotted(t)
+            if d is None:
+                return None
+            names.append(d.split('.')[-1])
+        return frozenset(c for c in S if any(n in {x.name for x in c.mro()} for n in names))
+
+    def test(self, n, S):
+        """-> (classes when n is true, classes when n is false); reads inside n are checked under the state they execute in."""
+        if isinstance(n, ast.BoolOp):
+            if isinstance(n.op, ast.And):
+                cur, false = S, frozenset()
+                for v in n.values:
+                    t, f = self.test(v, cur)
+                    false |= f
+                    cur = t
+                return cur, false
+            cur, true = S, frozenset()
+            for v in n.values:
+                t, f = self.test(v, cur)
+                true |= t
+                cur = f
+            return true, cur
+        if isinstance(n, ast.UnaryOp) and isinstance(n.op, ast.Not):
+            t, f = self.test(n.operand, S)
+            return f, t
+        if isinstance(n, ast.Call) and dotted(n.func) == 'isinstance' and len(n.args) == 2 and self._is_var(n.args[0]):
+            t = self._classes(n.args[1], S)
+            if t is not None:
+                return t, S - t
+        if isinstance(n, ast.Call) and dotted(n.func) == 'hasattr' and len(n.args) == 2 and self._is_var(n.args[0]) and \
+                isinstance(n.args[1], ast.Constant):
+            t = frozenset(c for c in S if n.args[1].value in self.attrs[c])
+            return t, S - t
+        if isinstance(n, ast.Compare) and len(n.ops) == 1 and isinstance(n.ops[0], (ast.Is, ast.IsNot, ast.Eq, ast.NotEq)) and \
+                isinstance(n.left, ast.Call) and dotted(n.left.func) == 'type' and len(n.left.args) == 1 and self._is_var(n.left.args[0]):
+            t = self._classes(n.comparators[0], S)
+            if t is not None:
+                exact = frozenset(c for c in t if c.name == (dotted(n.comparators[0]) or '').split('.')[-1])
+                return (exact, S) if isinstance(n.ops[0], (ast.Is, ast.Eq)) else (S, exact)
+        self.expr(n, S)
+        return S, S
+
+    def expr(self, n, S):
+        if n is None:
+            return
+        if isinstance(n, (ast.BoolOp, ast.UnaryOp)) and (isinstance(n, ast.BoolOp) or isinstance(n.op, ast.Not)):
+            self.test(n, S)
+            return
+        if isinstance(n, ast.IfExp):
+            t, f = self.test(n.test, S)
+            self.expr(n.body, t)
+            self.expr(n.orelse, f)
+            return
+        if isinstance(n, ast.Attribute) and self._is_var(n.value):
+            if S and any(n.attr not in self.attrs[c] for c in S):
+                self.bad.append((n.attr, getattr(n, 'lineno', 0)))
+            return
+        if isinstance(n, (ast.ListComp, ast.SetComp, ast.GeneratorExp, ast.DictComp)):
+            cur = S
+            for g in n.generators:
+                self.expr(g.iter, cur)
+                for c in g.ifs:
+                    cur = self.test(c, cur)[0]
+            for e in ([n.key, n.value] if isinstance(n, ast.DictComp) else [n.elt]):
+                self.expr(e, cur)
+            return
+        for ch in ast.iter_child_nodes(n):
+            if isinstance(ch, ast.expr):
+                self.expr(ch, S)
+            elif isinstance(ch, (ast.keyword, ast.Slice)):
+                for x in ast.iter_child_nodes(ch):
+                    if isinstance(x, ast.expr):
+                        self.expr(x, S)
+
+    def block(self, stmts, S):
+        """-> classes the variable can be when the block is left normally (None when it always leaves the iteration)."""
+        for st in stmts:
+            if S is None:
+                break
+            S = self.stmt(st, S)
+        return S
+
+    def stmt(self, st, S):
+        if isinstance(st, ast.If):
+            t, f = self.test(st.test, S)
+            a = self.block(st.body, t)
+            b = self.block(st.orelse, f)
+            if a is None:
+                return b
+            if b is None:
+                return a
+            return a | b
+        if isinstance(st, (ast.Continue, ast.Break, ast.Return, ast.Raise)):
+            for ch in ast.iter_child_nodes(st):
+                if isinstance(ch, ast.expr):
+                    self.expr(ch, S)
+            return None
+        if isinstance(st, (ast.For, ast.While)):
+            if isinstance(st, ast.For):
+                self.expr(st.iter, S)
+            else:
+                self.test(st.test, S)
+            self.block(st.body, S)
+            self.block(st.orelse, S)
+            return S
+        if isinstance(st, ast.Try):
+            outs = [self.block(st.body + st.orelse, S)]
+            for h in st.handlers:
+                outs.append(self.block(h.body, S))
+            outs = [o for o in outs if o is not None]
+            res = frozenset().union(*outs) if outs else None
+            if st.finalbody:
+                self.block(st.finalbody, S)
+            return res
+        if isinstance(st, ast.With):
+            for it in st.items:
+                self.expr(it.context_expr, S)
+            return self.block(st.body, S)
+        if isinstance(st, (ast.FunctionDef, ast.AsyncFunctionDef, ast.ClassDef)):
+            return S
+        if isinstance(st, (ast.Assign, ast.AugAssign, ast.AnnAssign)):
+            tg = st.targets if isinstance(st, ast.Assign) else [st.target]
+            if any(self._is_var(t) for t in tg):
+                self.expr(st.value, S)
+                return frozenset()          # the variable is rebound: no longer an element of the list
+        for ch in ast.iter_child_nodes(st):
+            if isinstance(ch, ast.expr):
+                self.expr(ch, S)
+        return S
+
+
+def _sessionkey_iterations(fn, universe):
+    """Binding constructs of fn whose variable ranges over a `_sessionkeys` list (directly, through a local alias, through
+    iter/list/tuple/reversed/sorted/enumerate/filter or through an identity comprehension):
+    -> [(var name, classes the elements can be, [(kind, nodes)], lineno, iterable text)]."""
+    assigns = {}
+    for n in ast.walk(fn.node):
+        if isinstance(n, ast.Assign) and len(n.targets) == 1 and isinstance(n.targets[0], ast.Name):
+            assigns.setdefault(n.targets[0].id, []).append(n.value)
+
+    def elements(it, depth=0):
+        """Classes of the elements of iterable `it` if it derives from a session-key list, else None."""
+        if depth > 4:
+            return None
+        if isinstance(it, ast.Attribute) and it.attr == '_sessionkeys':
+            return frozenset(universe)
+        if isinstance(it, ast.Name) and len(assigns.get(it.id, [])) == 1:
+            return elements(assigns[it.id][0], depth + 1)
+        if isinstance(it, ast.Call) and dotted(it.func) in ('iter', 'list', 'tuple', 'reversed', 'sorted', 'set', 'frozenset') and it.args:
+            return elements(it.args[0], depth + 1)
+        if isinstance(it, ast.Call) and dotted(it.func) == 'filter' and len(it.args) == 2:
+            S = elements(it.args[1], depth + 1)
+            lam = it.args[0]
+            if S is not None and isinstance(lam, ast.Lambda) and len(lam.args.args) == 1:
+                nr = _Narrow(lam.args.args[0].arg, universe)
+                return nr.test(lam.body, S)[0]
+            return S
+        if isinstance(it, (ast.GeneratorExp, ast.ListComp, ast.SetComp)) and len(it.generators) == 1 and \
+                isinstance(it.generators[0].target, ast.Name) and isinstance(it.elt, ast.Name) and it.elt.id == it.generators[0].target.id:
+            g = it.generators[0]
+            S = elements(g.iter, depth + 1)
+            if S is None:
+                return None
+            nr = _Narrow(g.target.id, universe)
+            for c in g.ifs:
+                S = nr.test(c, S)[0]
+            return S
+        return None
+
+    def target_var(target, it):
+        if isinstance(it, ast.Call) and dotted(it.func) == 'enumerate' and it.args and isinstance(target, ast.Tuple) and len(target.elts) == 2:
+            return target.elts[1], it.args[0]
+        return target, it
+
+    out = []
+    for node in ast.walk(fn.node):
+        if isinstance(node, (ast.GeneratorExp, ast.ListComp, ast.SetComp, ast.DictComp)):
+            for gi, g in enumerate(node.generators):
+                tv, it = target_var(g.target, g.iter)
+                S = elements(it)
+                if S is None or not isinstance(tv, ast.Name):
+                    continue
+                later = [x for h in node.generators[gi + 1:] for x in [h.iter] + list(h.ifs)]
+                body = [node.key, node.value] if isinstance(node, ast.DictComp) else [node.elt]
+                out.append((tv.id, S, ('comp', list(g.ifs), later + body), node.lineno, ast.unparse(g.iter)))
+        elif isinstance(node, ast.For):
+            tv, it = target_var(node.target, node.iter)
+            S = elements(it)
+            if S is None or not isinstance(tv, ast.Name):
+                continue
+            out.append((tv.id, S, ('loop', list(node.body)), node.lineno, ast.unparse(node.iter)))
+    return out
 
 
 def check_sessionkey_consumers(rep, prog, rid):
-    """Every iteration over a `_sessionkeys` list either filters by isinstance or touches only attributes common to both packet classes."""
-    pk = prog.cls('pgpy.packet.packets', 'PKESessionKeyV3')
-    sk = prog.cls('pgpy.packet.packets', 'SKESessionKeyV4')
-    common = class_attr_names(pk) & class_attr_names(sk)
+    """Every iteration over a `_sessionkeys` list reads class-specific fields of an element only where the element is known (isinstance
+    filter / guard) to be of a class that has them.  Decided by narrowing the set of packet classes the loop variable can be along the
+    control flow of the loop body / comprehension - loop vs comprehension, guard clause vs nested if, operand order do not matter."""
+    universe = _sessionkey_universe(prog)
     n = 0
     for fn in prog.all_functions():
-        for node in ast.walk(fn.node):
-            gens = []
-            if isinstance(node, (ast.GeneratorExp, ast.ListComp, ast.SetComp, ast.DictComp)):
-                for g in node.generators:
-                    gens.append((g.target, g.iter, [node.elt if not isinstance(node, ast.DictComp) else node.value] + list(g.ifs), g.ifs))
-            elif isinstance(node, ast.For):
-                gens.append((node.target, node.iter, list(node.body), []))
-            for target, it, uses, ifs in gens:
-                if '_sessionkeys' not in ast.unparse(it) or not isinstance(target, ast.Name):
-                    continue
-                # an inner generator may already have filtered
-                pre_filtered = 'isinstance' in ast.unparse(it)
-                var = target.id
-                n += 1
-                touched = set()
-                for u in uses:
-                    for x in ast.walk(u):
-                        if isinstance(x, ast.Attribute) and isinstance(x.value, ast.Name) and x.value.id == var:
-                            touched.add(x.attr)
-                specific = sorted(a for a in touched if a not in common)
-                filt = pre_filtered or any(isinstance(c, ast.Call) and dotted(c.func) == 'isinstance' and c.args and
-                                           isinstance(c.args[0], ast.Name) and c.args[0].id == var
-                                           for i in ifs for c in ast.walk(i))
-                # the isinstance test must come first in an `and` chain so that it guards the attribute reads
-                first_ok = True
-                for i in ifs:
-                    if isinstance(i, ast.BoolOp) and isinstance(i.op, ast.And):
-                        f0 = i.values[0]
-                        if specific and not (isinstance(f0, ast.Call) and dotted(f0.func) == 'isinstance'):
-                            first_ok = False
-                rep.check(not specific or (filt and first_ok), rid, fn.qualname, 'iteration over %s touching %s' % (ast.unparse(it)[:50], specific),
-                          'a message can carry public-key and passphrase session-key packets at once; class-specific fields %s are read '
-                          'without an isinstance filter' % specific, where='%s:%d' % (fn.module.relpath, node.lineno),
-                          expected='isinstance(%s, <class>) filter' % var, found=ast.unparse(node)[:160])
+        for var, S, shape, lineno, ittext in _sessionkey_iterations(fn, universe):
+            n += 1
+            nr = _Narrow(var, universe)
+            if shape[0] == 'comp':
+                cur = S
+                for c in shape[1]:
+                    cur = nr.test(c, cur)[0]
+                for e in shape[2]:
+                    nr.expr(e, cur)
+            else:
+                nr.block(shape[1], S)
+            specific = sorted(set(a for a, _ in nr.bad))
+            rep.check(not specific, rid, fn.qualname, 'iteration over %s touching %s' % (ittext[:50], specific),
+                      'a message can carry public-key and passphrase session-key packets at once; class-specific fields %s are read '
+                      'without an isinstance filter' % specific, where='%s:%d' % (fn.module.relpath, lineno),
+                      expected='isinstance(%s, <class>) filter before %s' % (var, specific), found=ittext[:160])
     return n
 
 
 def check_pkesk_selection(rep, prog, rid):
+    """PGPKey.decrypt recovers the session key from a packet selected among message._sessionkeys by class, algorithm AND key id.
+    The selecting condition is read as a boolean function (truth table over its atoms), not as text."""
+    from . import taint
     fi = prog.method('pgpy.pgp', 'PGPKey', 'decrypt')
-    outs = Interp(prog, Scenario(bind={'message.is_encrypted': Const(True)}, inline=noinline,
-                                 axioms={'(self.fingerprint.keyid not in message.encrypters)': False})).run(fi)
+    outs = taint.run_roles(prog, fi, ('self', 'message'), bind={'message.is_encrypted': Const(True)},
+                           axioms={'(self.fingerprint.keyid not in message.encrypters)': False,
+                                   '(self.fingerprint.keyid in message.encrypters)': True})
+    seen = 0
     for s in outs:
+        if s.raised:
+            continue
         dsk = [c for c in s.calls if c[0].endswith('.decrypt_sk')]
         if not dsk:
             rep.violation(rid, 'PGPKey.decrypt', 'no decrypt_sk call', 'the key never recovers a session key', where=fi.where)
             continue
+        seen += 1
         t = dsk[0][0][:-len('.decrypt_sk')]
-        _m = re.search(r'EACH\((\$\d+) in message\._sessionkeys if (.*);\1\)', t)
-        _v = _m.group(1) if _m else '$1'
-        _c = (_m.group(2) if _m else '').replace(' ', '')
-        conj = bool(_m) and all(x in _c for x in ('isinstance(%s,PKESessionKey)' % _v, '%s.pkalg==self.key_algorithm' % _v)) and \
-            any(x in _c for x in ('%s.encrypter==self.fingerprint.keyid' % _v, 'self.fingerprint.keyid==%s.encrypter' % _v)) and ' or ' not in _m.group(2)
-        rep.check(conj, rid, 'PGPKey.decrypt', 'session-key packet selection %s' % t[:140],
+        m = re.search(r'EACH\((\$[\d.]+) in message\._sessionkeys(?: if (.*))?;\1\)', t)
+        if m is None:
+            if 'message._sessionkeys' in t or '$' in t:
+                raise AnalysisError('PGPKey.decrypt: the session-key packet is selected in a way the rule cannot read: %s' % t[:160])
+            rep.violation(rid, 'PGPKey.decrypt', 'session-key packet selection %s' % t[:140],
+                          'the packet used must be selected from the message\'s session-key packets by key id and algorithm', where=fi.where, found=t)
+            continue
+        v = m.group(1)
+        conds = [c for c in taint._split_top(m.group(2) or 'True', ' if ')]
+        fn = taint.BoolFn('(' + ') and ('.join(conds) + ')')
+        need = [taint.BoolFn.isinst(v, 'PKESessionKey'), taint.BoolFn.eq(v + '.pkalg', 'self.key_algorithm'),
+                taint.BoolFn.eq(v + '.encrypter', 'self.fingerprint.keyid')]
+        alt = [taint.BoolFn.isinst(v, 'PKESessionKeyV3')] + need[1:]
+        ok = any(all(fn.implies(a) for a in atoms) and fn.holds_when(atoms) for atoms in (need, alt))
+        rep.check(ok, rid, 'PGPKey.decrypt', 'session-key packet selection %s' % t[:140],
                   'with several recipients the packet used must be the one addressed to this key id (and algorithm)', where=fi.where,
                   expected='isinstance(pk, PKESessionKey) and pk.pkalg == self.key_algorithm and pk.encrypter == self.fingerprint.keyid',
                   found=t)
+    if not seen:
+        raise AnalysisError('PGPKey.decrypt: no returning path that recovers a session key')
 
 
 def check_hash_object(rep, prog, rid, construct, text, S, where, scenario=None):
